@@ -525,10 +525,19 @@ void c33_case(Ctx& c, Rng& r) {
     } else if (mode == 3) {
         // wrong type / wrong transaction id / declared length beyond datagram
         stun_attr(body, xored ? 0x0020 : 0x0001, addr_attr);
-        const auto k = r.below(3);
+        const auto k = r.below(4);
         static const std::uint16_t types[] = {0x0001, 0x0111, 0x0100, 0x0102, 0x8101, 0x0000};
-        header(d, k == 0 ? types[r.below(6)] : 0x0101, k == 2 ? body.size() + 1 + r.below(8) : body.size(), k != 1);
+        std::size_t declared = body.size();
+        if (k == 2) declared = body.size() + 1 + r.below(8);
+        else if (k == 3) {
+            // declared lengths at the top of the 16-bit range (20 + length does not fit 16 bits), and other huge values
+            const auto w = r.below(4);
+            declared = w == 0 ? 0xFFEC + r.below(20) : (w == 1 ? 0xFFE0 + r.below(12) : (w == 2 ? 0xFF00 + r.below(256) : 0x8000 + r.below(0x7fff)));
+            c.note("stun.declared-length-near-16-bit-limit");
+        }
+        header(d, k == 0 ? types[r.below(6)] : 0x0101, declared, k != 1);
         d.insert(d.end(), body.begin(), body.end());
+        if (k == 3 && r.chance(1, 2)) d.resize(20);   // header only: everything the parser might walk lies outside the datagram
     } else if (mode == 4) {
         // address attribute overrunning the *declared* length while fitting in the datagram
         const auto before = r.below(2);
